@@ -359,7 +359,7 @@ def expected_of(spec):
     if spec["source"] == "random":
         from yaw.catalog.readers import RandomReader
         import yaw.randoms
-        gen = yaw.randoms.BoxRandoms(20.0, 160.0, -30.0, 40.0, seed=spec["dseed"])
+        gen = yaw.randoms.BoxRandoms(*drv.random_window(spec["ncent"]), seed=spec["dseed"])
         rows = []
         for chunk in RandomReader(gen, spec["n"], spec["cs"]):
             rows.extend(tuple(float(rec[nm]).hex() for nm in chunk.dtype.names) for rec in chunk)
